@@ -910,6 +910,17 @@ static Node *declaration(Token **rest, Token *tok, Type *basety, VarAttr *attr) 
     if (i++ > 0)
       tok = skip(tok, ",");
 
+    // 'int x = 1, f(void);': a function declarator may follow an object.
+    if (attr && is_function(tok, basety)) {
+      tok = function(tok, basety, attr);
+      if (equal(tok, ","))
+        continue;
+      Node *node = new_node(ND_BLOCK, tok);
+      node->body = head.next;
+      *rest = tok;
+      return node;
+    }
+
     Type *ty = declarator(&tok, tok, basety);
     if (ty->kind == TY_VOID)
       error_tok(tok, "variable declared void");
@@ -2071,7 +2082,10 @@ static Node *compound_stmt(Token **rest, Token *tok) {
 
       if (is_function(tok, basety)) {
         tok = function(tok, basety, &attr);
-        continue;
+        if (!equal(tok, ","))
+          continue;
+        // 'int f(void), x;': objects follow in the same declaration
+        tok = tok->next;
       }
 
       if (attr.is_extern) {
@@ -3822,6 +3836,9 @@ static Token *function(Token *tok, Type *basety, VarAttr *attr) {
       return function(tok->next, basety, attr);
     if (!scope->next)
       return global_variable(tok->next, basety, attr);
+
+    // In a block, the caller declares the objects that follow.
+    return tok;
   }
 
   current_fn = fn;
@@ -3875,6 +3892,14 @@ static Token *global_variable(Token *tok, Type *basety, VarAttr *attr) {
     if (!first)
       tok = skip(tok, ",");
     first = false;
+
+    // 'int x, f(void);': a function declarator may follow an object.
+    if (is_function(tok, basety)) {
+      tok = function(tok, basety, attr);
+      if (!equal(tok, ","))
+        return tok;
+      continue;
+    }
 
     Type *ty = declarator(&tok, tok, basety);
     if (!ty->name)
